@@ -239,6 +239,7 @@ fn lsp_eval(s: &lsp::Session, h: &lsp::History) -> LspEval {
             counters.insert("probes_checked".to_string(), st.probes_checked);
             counters.insert("edits_applied".to_string(), st.edits_applied);
             counters.insert("syntax_tree_crosschecks".to_string(), st.syntax_tree_crosschecks);
+            counters.insert("systematic_sweep_edits".to_string(), st.sweep_edits);
             LspEval { violation, nontrivial: st.nontrivial, kind_key: st.kind_key, counters }
         }
         "C15" => {
